@@ -23,6 +23,11 @@ def total_out(case): return ''.join(obslog.sink_bytes(c['sink']) for c in case['
 
 def oracle_c01(line, case, stats, allc, lines):
     errs = []
+    if line.startswith('L3 '):
+        # all 36 encodings: the level-3 harness compares the sink bytes with input + encode(decode(text)) (+ inserted content)
+        stats['encoded_cases'] = stats.get('encoded_cases', 0) + 1
+        if ' ins=-' in line and ' endins=-' in line: stats['encoded_pass_through_cases'] = stats.get('encoded_pass_through_cases', 0) + 1
+        return [x[len('X c13-bad '):] for x in case.get('extra', []) if x.startswith('X c13-bad sink bytes differ')][:2]
     if not is_observer_config(line): return errs
     d = kv(line)
     stats['observer_cases'] = stats.get('observer_cases', 0) + 1
@@ -373,13 +378,15 @@ def classify_c14(line, case, msg):
 # ------------------------------------------------------------------------------------------------
 def oracle_c15(line, case, stats, allc, lines):
     errs = []
+    if line.startswith('L3 '): stats['encoded_cases'] = stats.get('encoded_cases', 0) + 1
     for k, c in enumerate(case['calls']):
         r = c['res'] or ''
         stats['calls'] = stats.get('calls', 0) + 1
         if r.startswith('panic') and not r.startswith('panic:poisoned'):
             errs.append('call %d panicked: %s' % (k, r[:200]))
     for x in case['extra']:
-        if x.startswith('X'): errs.append(x[:200])
+        if x.startswith('X') and not x.startswith(('X c13-', 'X c14-', 'X c12-')): errs.append(x[:200])
+        if x.startswith('X c13-bad the implementation panicked'): errs.append(x[:200])
     return errs[:2]
 def classify_c10(line, case, msg):
     if 'panic:construct' in msg: return 'PreallocAboveLimit'
